@@ -300,6 +300,21 @@ pub fn run(rep: &mut Report) {
         sweep(rep, &format!("c18.{}", FORMS[form]), nf * 9, |i, out| j_unit_float(form, fx[(i / 9) as usize], UNITS[(i % 9) as usize], out));
     }
     sweep(rep, "c18.read", dl.len() as u64, |i, out| j_read(dl[i as usize], out));
+    // every whole number of days -120..=120 and whole weeks / days on top of -3..=3 and 100 whole centuries (a unit that
+    // does not divide a century - the week - meets every alignment of the century field and the nanosecond field)
+    {
+        let mut wd: Vec<i128> = (-120i128..=120).map(|d| d * NS_DAY).collect();
+        for c in [-3i128, -2, -1, 1, 2, 3, 100] {
+            for k in [0i128, 1, 2, 5, 6, 7, 8, 13, 14, 700, 5217 * 7, 5217 * 7 + 6] {
+                wd.push(c * NPC + k * NS_DAY);
+                wd.push(c * NPC - k * NS_DAY);
+            }
+        }
+        wd.sort();
+        wd.dedup();
+        rep.bound("whole_day_lattice", wd.len() as u64);
+        sweep(rep, "c18.read[whole-days]", wd.len() as u64, |i, out| j_read(wd[i as usize], out));
+    }
     sweep(rep, "c18.mono", dl.len() as u64 - 1, |i, out| j_mono(dl[i as usize], dl[i as usize + 1], out));
     sweep(rep, "c18.in_seconds", 9, |i, out| j_in_seconds(UNITS[i as usize], out));
     let years10k: i128 = 10_000 * 36_525 * NS_DAY / 100;
@@ -338,6 +353,12 @@ pub fn run(rep: &mut Report) {
     let small: [f64; 5] = [0.0, 0.5, 1e7, 1e19, 1e300];
     let nfar = 5 * 7 * 7 * huge.len() as u64 * small.len() as u64;
     rep.bound("compose_f64_far", nfar);
+    // order independence: Duration * f64 with repeated and alternating factors, readers, in every order
+    {
+        let of: [f64; 6] = [0.25, 0.5, 0.1, 1.0 / 3.0, 5e-12, 2.5];
+        let oa: [i128; 4] = [1_000 * NS_S, NS_DAY, -NS_S * 7, 3_600 * NS_S];
+        crate::engine::order_pairs(rep, "c18.order", 24 + 6, |i, out| if i < 24 { j_dur_mul((i % 2) as usize, oa[((i / 6) % 4) as usize], of[(i % 6) as usize], out) } else { j_read([-6 * NS_DAY, -13 * NS_DAY, 7 * NS_DAY, NPC + 7 * NS_DAY, -NS_S, NPC / 2][(i - 24) as usize], out) });
+    }
     sweep(rep, "c18.compose_f64[far]", nfar, |i, out| {
         let mut r = i;
         let sm = small[(r % 5) as usize];
